@@ -12,6 +12,7 @@ Require Import Regen.Base.Bytes Regen.Base.Calendar Regen.Dec.Dec.
 Require Import Regen.Ledger.Types Regen.Ledger.Msgs Regen.Ledger.Orm.
 Require Import Regen.Query.Paginate Regen.Query.Queries.
 Require Import Regen.Cases.LedgerRun.
+Require Regen.Data.DataMsgs Regen.Cases.DataRun.
 Import ListNotations.
 Local Open Scope Z_scope.
 
@@ -35,9 +36,15 @@ Inductive qobs :=
 | OOne (r : orow)                 (* single-entity answer *)
 | OErr (cls : N).                 (* 1 NotFound, 2 InvalidArgument, 3 any other error, 4 panic *)
 
-Record qitem := { qi_req : qreq; qi_page : pspec; qi_obs : qobs }.
+(* a request to one of the three ecocredit query services, or to the data query service *)
+Inductive anyreq := EQ (q : qreq) | DQ (q : dqreq).
 
-Record qcase := { qc_id : N; qc_state : list rowv; qc_addrs : addr_table; qc_items : list qitem }.
+Record qitem := { qi_req : anyreq; qi_page : pspec; qi_obs : qobs }.
+
+(* [qc_state]: the ecocredit tables (rowv of Cases/LedgerRun.v); [qc_data]: the data tables (drow of
+   Cases/DataRun.v) *)
+Record qcase := { qc_id : N; qc_state : list rowv; qc_data : list DataRun.drow; qc_addrs : addr_table;
+                  qc_items : list qitem }.
 
 (* ------------------------------------------------------------------ *)
 (* comparing rows (amounts by value)                                   *)
@@ -68,6 +75,9 @@ Definition row_match (m : mrow) (o : orow) : bool :=
   | ROrder i sl d q ad aa dar ex, ROrder i' sl' d' q' ad' aa' dar' ex' =>
       (i =? i')%N && (sl =? sl')%N && beq d d' && beq q q' && beq ad ad' && (aa =? aa') && Bool.eqb dar dar' && opt_eqb ts_eqb ex ex'
   | RAllowedDenom bd d e, RAllowedDenom bd' d' e' => beq bd bd' && beq d d' && (e =? e')
+  | RAttestation i a t, RAttestation i' a' t' => beq i i' && (a =? a')%N && ts_eqb t t'
+  | RResolver i u m, RResolver i' u' m' => (i =? i')%N && beq u u' && opt_eqb N.eqb m m'
+  | RAnchor i t, RAnchor i' t' => beq i i' && ts_eqb t t'
   | _, _ => false
   end.
 
@@ -143,8 +153,8 @@ Definition check_paged (l : list (option mrow)) (p : pspec) (obs : qobs) : list 
   | PSWalkOffset k ct rev => check_walk (walk_by_offset (S (List.length l)) l k ct rev 0%N) obs
   end.
 
-Definition check_item (ab : addr -> bytes) (s : state) (it : qitem) : list N :=
-  match run_query ab s (qi_req it), qi_obs it with
+Definition check_item (ab : addr -> bytes) (s : state) (d : DataMsgs.dstate) (it : qitem) : list N :=
+  match (match qi_req it with EQ q => run_query ab s q | DQ q => run_data_query ab d q end), qi_obs it with
   | QErr e, OErr c => if (err_class e =? c)%N then [] else [2%N]
   | QErr _, _ => [1%N]
   | QOne r, OOne o => if row_match r o then [] else [8%N]
@@ -158,12 +168,13 @@ Definition check_item (ab : addr -> bytes) (s : state) (it : qitem) : list N :=
 
 Definition run_case (c : qcase) : list (N * list N) :=
   let s := build_state (qc_state c) in
+  let d := DataRun.build_state (qc_data c) in
   let ab := addr_lookup (qc_addrs c) in
   (fix go (i : N) (l : list qitem) : list (N * list N) :=
      match l with
      | [] => []
      | it :: l' =>
-         match check_item ab s it with
+         match check_item ab s d it with
          | [] => go (i + 1)%N l'
          | bad => (i, bad) :: go (i + 1)%N l'
          end
